@@ -34,7 +34,8 @@ input == <<lines, expect, sig, wrap>>     \* wrap: shape of the parent's return 
 OptNames == {"ignore_init_summary"}     \* trim_doctest_flags, warn_unknown_params decide no branch: varied by the harness
 \* tuplefn: function returning tuple[int, str]; genfn: function returning Generator[tuple[..], tuple[..], tuple[..]]
 \* aliasmod: a module in which every documented name is imported from a package that is not loaded (unresolvable alias)
-Parents == {"none", "module", "class", "function", "init", "property", "tuplefn", "genfn", "aliasmod", "tupleprop", "tuple0fn", "gen1fn", "gen2fn", "iterfn"}
+Parents == {"none", "module", "class", "function", "init", "property", "tuplefn", "genfn", "aliasmod", "tupleprop", "tuple0fn", "gen1fn", "gen2fn", "iterfn",
+            "detachedinit"}      \* detachedinit: a hand-built function named __init__ without any parent (not "__init__ in a class")
 
 ParamKinds == {"parameters", "other_parameters"}
 RetKinds == {"returns", "yields", "receives"}
@@ -192,9 +193,12 @@ Split(P, b) == IF b THEN pcand \cap P ELSE pcand \ P
 
 \* =========================================== the case space ===========================================================
 NoSig == [ann |-> FALSE, def |-> FALSE]
+\* Docstring.value = inspect.cleandoc(source.rstrip()): first and last line non-blank, and the common indentation is removed, so
+\* SOME non-blank line (possibly the first: a source that starts with a newline keeps the relative indentation of its first
+\* paragraph) has no indentation.  ("Args:" followed only by indented lines is the most common docstring shape.)
 CleandocFixedPoint(d) ==
-  /\ d[1].ind = 0 /\ ~IsBlank(d[1]) /\ ~IsBlank(d[Len(d)])
-  /\ (Len(d) > 1 => \E j \in 2..Len(d) : ~IsBlank(d[j]) /\ d[j].ind = 0)
+  /\ ~IsBlank(d[1]) /\ ~IsBlank(d[Len(d)])
+  /\ \E j \in 1..Len(d) : ~IsBlank(d[j]) /\ d[j].ind = 0
 
 \* ---- struct mode ------------------------------------------------------------------------------------------------
 Shapes == {"one", "two", "blank"}
@@ -298,8 +302,8 @@ RenderLines(st) == RenderAll(st, [lines |-> <<Ln(0, "N")>>, sig |-> <<NoSig>>, e
 \* every cleandoc-stable sequence of 1..MaxLen classes (enumerated piecewise: first line, middle, last line), + the empty docstring
 SeqLines ==
   \/ lines = <<Blank>>
-  \/ \E n \in 1..MaxLen : \E a \in {x \in Alphabet : x.ind = 0 /\ ~IsBlank(x)} :
-       IF n = 1 THEN lines = <<a>>
+  \/ \E n \in 1..MaxLen : \E a \in {x \in Alphabet : ~IsBlank(x)} :
+       IF n = 1 THEN lines = <<a>> /\ CleandocFixedPoint(lines)
        ELSE \E z \in {x \in Alphabet : ~IsBlank(x)}, m \in [1..(n - 2) -> Alphabet] :
               lines = <<a>> \o m \o <<z>> /\ CleandocFixedPoint(lines)
 InitSeq ==
